@@ -91,6 +91,25 @@ def all_unelim(a):
     return out
 
 
+def bare(a, memo):
+    """structure of an AST with every annotation stripped (annotations of other kinds may legitimately come and go)"""
+    i = id(a)
+    if i not in memo:
+        memo[i] = (a.op, tuple(bare(x, memo) if isinstance(x, claripy.ast.Base) else ("l", repr(x)) for x in a.args), a.length
+                   if hasattr(a, "length") else None)
+    return memo[i]
+
+
+def keepers(a, memo):
+    """(bare structure, annotation) for every non-eliminatable, non-relocatable annotation and the sub-expression carrying it"""
+    out = {}
+    for s in [a] + list(a.children_asts()):
+        for an in s.annotations:
+            if not an.eliminatable and not an.relocatable:
+                out[(bare(s, memo), an)] = s
+    return out
+
+
 def carried_reloc(a):
     return {an for an in a.annotations if an.relocatable and not an.eliminatable}
 
@@ -192,6 +211,18 @@ def run(ctx):
                 ctx.violation("C07/%s/unelim-lost" % op.split(":")[0],
                               "%s%s built %r: non-eliminatable annotation(s) %s no longer reachable" % (op, [repr(x) for x in args], r, srt(lost)),
                               {"op": op, "args": [aexpr(x) for x in aa], "result": aexpr(r), "lost": srt(lost), "template": name,
+                               "rebuild": [spec(x) for x in args]})
+                continue
+            # the contract is about the annotated SUB-EXPRESSION: it must still be there (the rewrite is skipped instead);
+            # an annotation that merely reappears on a different, rewritten node has been relocated although it is not relocatable
+            bmemo = {}
+            kept = keepers(r, bmemo)
+            gone = [x for a_ in aa for h_, x in keepers(a_, bmemo).items() if h_ not in kept]
+            if gone:
+                ctx.violation("C07/%s/annotated-subexpression-removed" % op.split(":")[0],
+                              "%s%s built %r: the sub-expression %r carrying %s is not part of the result" % (
+                                  op, [repr(x) for x in args], r, gone[0], srt({an for an in gone[0].annotations if not an.eliminatable and not an.relocatable})),
+                              {"op": op, "args": [aexpr(x) for x in aa], "result": aexpr(r), "removed": aexpr(gone[0]), "template": name,
                                "rebuild": [spec(x) for x in args]})
                 continue
             lostr = R - set(r.annotations)
